@@ -898,7 +898,15 @@ impl Lexer<'_> {
             }
             c if is_valid_unicode_sas_name_start(c) => {
                 self.lex_identifier();
-                self.set_pending_stat(true);
+
+                // The only way for this to end with a semicolon is a datalines
+                // block, whose terminator has also ended the statement
+                let stat_ended = self
+                    .buffer
+                    .last_token_info()
+                    .is_some_and(|t| t.token_type == TokenType::SEMI);
+
+                self.set_pending_stat(!stat_ended);
             }
             _ => {
                 // Something else must be a symbol or some unknown character
